@@ -112,10 +112,11 @@ fn dce_block_with_live(
                     out.push(ast::Stmt::Assignment { name, value });
                 } else if live.contains(&name) {
                     // This assignment feeds a later rvalue use; keep it and require a prior decl
+                    // (`x = f(x)` reads the previous value: kill first, then add the uses)
+                    live.remove(&name);
                     for u in &used_rhs {
                         live.insert(u.clone());
                     }
-                    live.remove(&name);
                     needs_decl.insert(name.clone());
                     out.push(ast::Stmt::Assignment { name, value });
                 } else {
@@ -167,7 +168,10 @@ fn dce_block_with_live(
                 out.push(ast::Stmt::Return { expr });
             }
             ast::Stmt::Loop { body } => {
-                let (body_block, body_live_in) = dce_block_with_live(body, &live);
+                // the back edge: whatever the body reads may be read by the next iteration
+                let mut loop_live = live.clone();
+                loop_live.extend(free_vars_in_block(&body));
+                let (body_block, body_live_in) = dce_block_with_live(body, &loop_live);
                 live.extend(body_live_in);
                 needs_decl.extend(assigned_vars_in_block(&body_block));
                 out.push(ast::Stmt::Loop { body: body_block });
